@@ -26,6 +26,9 @@ OUTCOMES_FAIL = ['failed', 'raise']
 OUTCOMES_MALFORMED = ['none', 'nonpair', 'triple', 'badstatus_str', 'badstatus_int',
                       'badupdate_int', 'badupdate_list', 'badupdate_emptylist', 'badupdate_zero',
                       'badupdate_emptystr']
+# updates that are mappings but cannot be merged into the environment (C03 only: whether the
+# merge fails depends on which task publishes first, so C01/C02 have no schedule-free model)
+OUTCOMES_UNMERGEABLE = ['clash_scalar', 'clash_mapping', 'ownsection_scalar']
 ALL_OUTCOMES = OUTCOMES_OK + OUTCOMES_FAIL + OUTCOMES_MALFORMED
 FINAL = (TaskStatus.DONE, TaskStatus.FAILED, TaskStatus.SKIPPED)
 
@@ -111,6 +114,12 @@ class Probe(Task):
             return 3, TaskStatus.DONE
         if kind == 'badupdate_list':
             return [1, 2], TaskStatus.DONE
+        if kind == 'clash_scalar':             # two tasks disagree about the type of a shared key
+            return {'clash': 3}, TaskStatus.DONE
+        if kind == 'clash_mapping':
+            return {'clash': {'k': 1}}, TaskStatus.DONE
+        if kind == 'ownsection_scalar':        # the task's own section replaced by a scalar
+            return {self.name: 5}, TaskStatus.DONE
         if kind == 'badupdate_emptylist':      # falsy things that are not mappings either
             return [], TaskStatus.DONE
         if kind == 'badupdate_zero':
@@ -417,11 +426,13 @@ def extras(draw, n):
     return extra
 
 
-def outcomes(n, fail_weight):
+def outcomes(n, fail_weight, unmergeable=False):
     """Per-task outcome; ``fail_weight`` in [0, 1] is the share of failing kinds.
     Among the failing kinds, FAILED / raise take half, the malformed returns
     (all of them, uniformly) the other half."""
     bad = st.one_of(st.sampled_from(OUTCOMES_FAIL), st.sampled_from(OUTCOMES_MALFORMED))
+    if unmergeable:
+        bad = st.one_of(bad, bad, st.sampled_from(OUTCOMES_UNMERGEABLE))
     one = st.tuples(st.integers(0, 999), bad).map(
         lambda pair: pair[1] if pair[0] < int(fail_weight * 1000) else 'done')
     return st.lists(one, min_size=n, max_size=n)
